@@ -88,7 +88,7 @@ def error_text_failure(e):
 
 
 def check_move(rep, stream, case, d, i, j, left, model, rng, ser=None, free=False, ev=None,
-               evcache=None, back=True, deep=False):
+               evcache=None, back=True, deep=False, semantics=True):
     """One interchange request on the real diagram `d`: correspondence with the model's answer and
     the property's own predicate.  `ser` = serialiser of the real result (answer-line format),
     `free` = evaluate under recvlib.FreeIntFunctor instead of semantics.IntFunctor (any box class),
@@ -165,7 +165,9 @@ def check_move(rep, stream, case, d, i, j, left, model, rng, ser=None, free=Fals
     frng = random.Random(rng.getrandbits(32))
     F = recvlib.FreeIntFunctor(frng) if free else IntFunctor(frng)
     try:
-        if free and wide(F, d):
+        if not semantics:
+            rep.count("functor_skipped_long")      # > 450 boxes (scaling stream): boxes, offsets,
+        elif free and wide(F, d):                  # attachment and the model's answer are compared
             rep.count("free_functor_skipped_wide")
         elif not np.array_equal(F.eval(d), F.eval(r)):
             rep.fail("semantics_changed", case, "evaluation under a random integer functor differs")
@@ -416,7 +418,14 @@ def run(tier, seed, replay=None):
                 "boxes with non-string or format-hazardous names, boxes of user subclasses with their own "
                 "__str__/__repr__/__format__, laid out grown / chain (wired) / blocked-left,-right,-2 "
                 "(refused part-way) / side - with all (i, j, left) in [-1, n] "
-                "(sampled above 4 / 9 boxes) and 3-step histories; non-trivial = i != j in range on a "
+                "(sampled above 4 / 9 boxes) and 3-step histories; stream `scaling` (c05_scale.py): LONG "
+                "moves - a mover box between 0-2 rail wires on either side and n boxes on the rails "
+                "(1 -> 1 boxes, scalars and state/effect pairs at the outer edges), n = 5 .. ~1600 in "
+                "process at the default recursion limit (thorough: 2200), moved down and up past all of "
+                "them with both preferences, with a box wired to the mover at the far end / half way / "
+                "next to it (the request past it must be refused with InterchangerError, the one stopping "
+                "before it is legal), targets beyond the end (IndexError); and the same at distances "
+                "150-300 (thorough: 1200) in a subprocess under sys.setrecursionlimit(100); non-trivial = i != j in range on a "
                 "diagram of >= 2 boxes; distinct by receiver class + request line")
     rep.partial = ["the class of the receiver (self.upgrade, subclass constructors) is outside the Lean "
                    "model: the receivers stream compares the five fields of the real result with the "
@@ -429,6 +438,10 @@ def run(tier, seed, replay=None):
                    "InterchangerError / IndexError for every kind of box object, and that str()/repr() "
                    "of the raised error can be built, is an oracle clause (the model side is "
                    "interchange_box_blind: outcome and error class do not depend on what the boxes are)",
+                   "the interpreter's recursion limit is outside the Lean model (the model's long-range "
+                   "interchange is a structural recursion on the distance and is compared on every long "
+                   "request, but that the code needs no stack proportional to the distance is an "
+                   "oracle-only clause: scaling stream, in process to ~1600 boxes and low-stack subprocess)",
                    "flatten() of a result is compared with the receiver only where flatten() is usable "
                    "(no Sum/Bubble inside, the receiver's own flatten() denotes the receiver); the "
                    "harness's own recursive opening of composite boxes is compared always"]
@@ -475,6 +488,9 @@ def run(tier, seed, replay=None):
                     seq = ("interchange", seq, i, j, l)
         # ---- receivers of every diagram class / of subclasses with their own constructor
         receivers_stream(rep, drv, rng, tier)
+        # ---- long moves (distances beyond the default recursion limit; low-stack subprocess)
+        from props import c05_scale
+        c05_scale.scaling_stream(rep, drv, random.Random(rng.getrandbits(64)), tier, check_move, simulate)
         # ---- exhaustive small scope: ALL diagrams over a fixed 8-box signature (scalar, state,
         # effect, unary, 1->2, 2->1, daggered endo, swap), domains (), a, a@b, width <= 4,
         # up to 2 (quick) / 3 (thorough) boxes, with ALL (i, j, left) triples incl. out of range
